@@ -541,6 +541,77 @@ func init() {
 			}
 			fmt.Fprintf(&e.out, "def %s : String := %s\n", fn.lean, leanStr(op))
 		}
+		// 5b. adjustByCPUSet: where the OLD cpuset handed to applyBESuppressCPUSet comes from (2nd argument, resolved
+		//     through the function's local definitions; receivers / package qualifiers that are plain identifiers are
+		//     dropped), the guard between the read and the rest, and the cpuset file the two cgroup readers read.
+		adjOld, adjCalls, adjAssigns := "", 0, 0
+		if fd := e.funcDecl(cs, "CPUSuppress", "adjustByCPUSet"); fd == nil || fd.Body == nil {
+			e.fail("adjustByCPUSet not found")
+		} else {
+			def := map[string]ast.Expr{}
+			for _, st := range fd.Body.List {
+				if as, ok := st.(*ast.AssignStmt); ok && len(as.Rhs) == 1 && len(as.Lhs) >= 1 {
+					if id, ok := as.Lhs[0].(*ast.Ident); ok {
+						if _, dup := def[id.Name]; !dup {
+							def[id.Name] = as.Rhs[0]
+						}
+					}
+				}
+			}
+			var res func(x ast.Expr, depth int) string
+			res = func(x ast.Expr, depth int) string {
+				switch v := x.(type) {
+				case *ast.Ident:
+					if d, ok := def[v.Name]; ok && depth < 8 {
+						return res(d, depth+1)
+					}
+					return v.Name
+				case *ast.SelectorExpr:
+					if id, ok := v.X.(*ast.Ident); ok {
+						if _, local := def[id.Name]; !local {
+							return v.Sel.Name
+						}
+					}
+					return res(v.X, depth) + "." + v.Sel.Name
+				case *ast.CallExpr:
+					var as []string
+					for _, a := range v.Args {
+						as = append(as, res(a, depth))
+					}
+					return res(v.Fun, depth) + "(" + strings.Join(as, ",") + ")"
+				}
+				return c12Expr(x)
+			}
+			oldName := ""
+			ast.Inspect(fd.Body, func(n ast.Node) bool {
+				if c, ok := n.(*ast.CallExpr); ok && c12Expr(c.Fun) == "applyBESuppressCPUSet" && len(c.Args) == 2 {
+					adjCalls++
+					adjOld = res(c.Args[1], 0)
+					if id, ok := c.Args[1].(*ast.Ident); ok {
+						oldName = id.Name
+					}
+				}
+				return true
+			})
+			// every assignment to that variable anywhere in the body (nested blocks included): it is set exactly once
+			ast.Inspect(fd.Body, func(n ast.Node) bool {
+				if as, ok := n.(*ast.AssignStmt); ok && oldName != "" {
+					for _, l := range as.Lhs {
+						if id, ok := l.(*ast.Ident); ok && id.Name == oldName {
+							adjAssigns++
+						}
+					}
+				}
+				return true
+			})
+			if adjCalls != 1 {
+				e.fail("adjustByCPUSet: %d calls of applyBESuppressCPUSet", adjCalls)
+			}
+		}
+		fmt.Fprintf(&e.out, "/-- adjustByCPUSet: the oldCPUSet argument of its applyBESuppressCPUSet call, resolved through the local definitions -/\n")
+		fmt.Fprintf(&e.out, "def adjustOldSource : String := %s\n", leanStr(adjOld))
+		fmt.Fprintf(&e.out, "/-- adjustByCPUSet: number of assignments (anywhere in the body) to the variable passed as oldCPUSet -/\n")
+		fmt.Fprintf(&e.out, "def adjustOldAssignments : Nat := %d\n", adjAssigns)
 		fmt.Fprintf(&e.out, "\n")
 		fmt.Fprintf(&e.out, "def mergeWriteCachesWritten : Bool := %v\n", writeOK)
 		fmt.Fprintf(&e.out, "def mergeSkipCachesOld : Bool := %v\n", skipOK)
